@@ -109,10 +109,6 @@ Fixpoint utf16_dec (u : list N) : res (list N) :=
     else if (56320 <=? h) && (h <? 57344) then Err UnicodeDecodeError
     else match utf16_dec r with Ok t => Ok (h :: t) | Err e => Err e end
   end.
-(* str.lower() on text decoded from iso-8859-1 (one character each, all within Latin-1) *)
-Definition lower_l1 (c : N) : N :=
-  if ((65 <=? c) && (c <=? 90)) || ((192 <=? c) && (c <=? 222) && negb (c =? 215))
-  then c + 32 else c.
 
 (* ---------------- _split_entries ---------------- *)
 Definition decode_lfn (b : list N) : res (option (list N)) :=
@@ -138,10 +134,10 @@ Definition split (lfns : list rec) (entry : rec) : res (list N * list N * rec) :
         match lfn with
         | Some l => l
         | None =>
-          let b := if negb (N.land a2 8 =? 0) then map lower_l1 sfn else sfn in
+          let b := if negb (N.land a2 8 =? 0) then map lower_b sfn else sfn in
           match ext with
           | [] => b
-          | _ => b ++ [46] ++ (if negb (N.land a2 16 =? 0) then map lower_l1 ext else ext)
+          | _ => b ++ [46] ++ (if negb (N.land a2 16 =? 0) then map lower_b ext else ext)
           end
         end in
     Ok (shown, match ext with [] => sfn | _ => sfn ++ [46] ++ ext end, entry)
